@@ -253,6 +253,16 @@ func run(sc vh.Scenario, dir string, rec *vh.Rec) {
 		reps = int(v)
 	}
 	for _, st := range sc.Steps {
+		if st.A() == "ProofList" {
+			items, _ := st["frame"].([]interface{})
+			for k := 0; k < reps; k++ {
+				rec.Begin(vh.Event{"a": "ProofList", "frame": items})
+				ev := proofListOne(r, items)
+				ev["frame"] = items
+				rec.Emit(ev)
+			}
+			continue
+		}
 		fr, _ := st["frame"].(map[string]interface{})
 		for k := 0; k < reps; k++ {
 			ev := vh.Event{"a": "Case", "frame": fr}
